@@ -8,7 +8,7 @@
 //   main ops:   N        take the next writer from the builder (writer indices count these)
 //               S<j>     start thread j, handing it the writers its script mentions
 //               w<i>:<hex> f<i> d<i>   as below, on a writer the main thread keeps for itself
-//   thread ops: w<i>:<hex>  one write call    f<i>  flush    d<i>  drop writer i
+//   thread ops: w<i>:<hex>  one write call    v<i>:<hex>  gathered writes (two slices)    f<i>  flush    d<i>  drop writer i
 //   bd=1: the builder is dropped as soon as the main script is through (as when the connection ends while
 //         requests are still unanswered); bd=0: it lives until every thread is done
 // observation: labels=<l;l;..> stream=<hex> done=<name:count,..> pend=<name:op,..|-> dead=<0|1>
@@ -43,7 +43,7 @@ impl Write for Sink {
 
 fn widx(op: &str) -> Option<usize> {
     let c = op.chars().next()?;
-    if c == 'w' || c == 'f' || c == 'd' {
+    if c == 'w' || c == 'f' || c == 'd' || c == 'v' {
         op[1..].split(':').next()?.parse().ok()
     } else {
         None
@@ -63,6 +63,25 @@ fn run_ops(name: &str, ops: &[String], mine: &mut HashMap<usize, SequentialWrite
                 let d = unhex(op.splitn(2, ':').nth(1).unwrap_or(""));
                 if let Some(w) = mine.get_mut(&i) {
                     let _ = w.write(&d);
+                }
+            }
+            b'v' => {
+                // gathered write: two slices, repeated until everything is written
+                let d = unhex(op.splitn(2, ':').nth(1).unwrap_or(""));
+                if let Some(w) = mine.get_mut(&i) {
+                    let a = d.len() / 2;
+                    let mut done = 0usize;
+                    while done < d.len() {
+                        let r = if done < a {
+                            w.write_vectored(&[std::io::IoSlice::new(&d[done..a]), std::io::IoSlice::new(&d[a..])])
+                        } else {
+                            w.write_vectored(&[std::io::IoSlice::new(&d[done..])])
+                        };
+                        match r {
+                            Ok(0) | Err(_) => break,
+                            Ok(k) => done += k,
+                        }
+                    }
                 }
             }
             b'f' => {
